@@ -403,6 +403,40 @@ def demoTok (id : Nat) (cls : Cls) (b : Option Nat) : Tok :=
 example : Desc [demoTok 0 .code none, demoTok 1 .refresh (some 0), demoTok 2 .access (some 1)] 7 0 (demoTok 2 .access (some 1)) :=
   .via (u := demoTok 1 .refresh (some 0)) (by simp) rfl rfl (.child (by simp) rfl rfl)
 
+theorem revokeBasedOn_other_grant (fuel : Nat) (toks : List Tok) (gid v : Nat) (x : Tok) (hx : x ∈ toks) (hg : x.gid ≠ gid) :
+    x ∈ revokeBasedOn fuel toks gid v := by
+  induction fuel generalizing toks v with
+  | zero => exact hx
+  | succ f ih =>
+    unfold revokeBasedOn
+    simp only
+    have h1 : x ∈ toks.map (fun t => if t.gid = gid ∧ t.basedOn = some v then { t with revoked := true } else t) :=
+      List.mem_map.mpr ⟨x, hx, by simp [hg]⟩
+    generalize (toks.map (fun t => if t.gid = gid ∧ t.basedOn = some v then { t with revoked := true } else t)) = toks1 at h1
+    generalize ((toks.filter (fun t => decide (t.gid = gid ∧ t.basedOn = some v))).map (·.id)) = kids
+    induction kids generalizing toks1 with
+    | nil => simpa using h1
+    | cons k ks ihk =>
+      simp only [List.foldl_cons]
+      exact ihk _ (ih toks1 k h1)
+
+/-- **revoking a token, recursively or not, never touches another grant**: every token of every other grant — another client's, another
+    user's, another session of the same user at the same client — is afterwards exactly what it was -/
+theorem revoke_token_is_grant_local (cfg : Cfg) (s : St) (tok : Nat) (rec : Bool) (hi : Inv s)
+    (t : Tok) (ht : t ∈ s.toks) (hid : t.id = tok) (x : Tok) (hx : x ∈ s.toks) (hg : x.gid ≠ t.gid) :
+    x ∈ (step cfg s (.revokeTok tok rec)).1.toks := by
+  have hf : findTok s tok = some t := hid ▸ findTok_of_mem hi ht
+  have hne : x.id ≠ tok := by
+    intro e
+    have : x = t := inv_uniq hi hx ht (by rw [e, hid])
+    exact hg (by rw [this])
+  have h1 : x ∈ updTok s.toks tok (fun y => { y with revoked := true }) :=
+    List.mem_map.mpr ⟨x, hx, by simp [hne]⟩
+  simp only [step, hf]
+  split
+  · exact revokeBasedOn_other_grant _ _ _ _ x h1 hg
+  · exact h1
+
 /-- locality: revoking a grant leaves every token of every other grant exactly as it was -/
 theorem revoke_grant_is_local (cfg : Cfg) (s : St) (gid : Nat) (t : Tok) (hne : t.gid ≠ gid) :
     t ∈ s.toks ↔ t ∈ (step cfg s (.revokeGrant gid)).1.toks := by
